@@ -182,7 +182,7 @@ class AmbigGen:
         a = text.index(s)
         return {"text": text, "span": (a, a + len(s)), "want": want, "form": form, "ctx": name, "how": how, "expr": s}
 
-    COLLISIONS = ["member", "tag", "member-use", "label", "member-late", "proto-param", "other-fn-param", "other-fn-local", "other-fn-typedef"]
+    COLLISIONS = ["member", "tag", "member-use", "label", "member-late", "proto-param", "other-fn-param", "other-fn-local", "other-fn-typedef", "late-redecl"]
 
     def collide(self, c, kind):
         """the same spellings in ANOTHER name space (6.2.3: members, tags and labels do not hide ordinary identifiers and are not hidden
@@ -197,6 +197,16 @@ class AmbigGen:
         elif kind == "member-use":
             pre = "struct Sm_ { int %s; } sm_, *pm_ = &sm_;\n" % T
             inbody = " sm_.%s = 1; pm_->%s = sm_.%s;" % (T, T, T)
+        elif kind == "late-redecl":
+            # a declaration that gives the name the OTHER role, later in the block of the function body: it does not reach back
+            # (6.2.1p7: the scope of a declaration begins just after its declarator)
+            if c["how"] not in ("file_typedef", "file_typedef_struct", "file_var", "enumerator") or T not in text.split("int f(")[0]:
+                return None
+            is_type = c["how"].startswith("file_typedef")
+            late = " int %s = 1;" % T if is_type else " typedef int %s;" % T
+            k = text.rindex("\n return 0;")
+            text = text[:k] + late + text[k:]
+            pre, inbody = "", ""
         elif kind == "label":
             pre, inbody = "", " goto %s; %s: ;" % (T, T)
         else:
@@ -223,7 +233,9 @@ class AmbigGen:
         for i, c in enumerate(base):
             for j, kind in enumerate(self.COLLISIONS):
                 if (i + 2 * j) % every == 0:
-                    out.append(self.collide(c, kind))
+                    d = self.collide(c, kind)
+                    if d:
+                        out.append(d)
         return out
 
     def base_cases(self):
